@@ -25,7 +25,11 @@ def sh(cmd, **kw):
 
 
 def main():
-    ids = sys.argv[1:] or sorted(d for d in os.listdir(os.path.join(VERIF, 'seeded')) if re.match(r'C\d+-\d+$', d))
+    harmless = '--harmless' in sys.argv
+    args = [a for a in sys.argv[1:] if not a.startswith('--')]
+    ids = args or sorted(d for d in os.listdir(os.path.join(VERIF, 'seeded')) if re.match(r'C\d+-b?\d+$', d))
+    if harmless:
+        return run_harmless()
     if not os.path.isdir(WT):
         r = sh('git -C /repo worktree add --detach %s HEAD' % WT)
         if r.returncode:
@@ -53,6 +57,31 @@ def main():
             print(sid, p, 'exit=%d' % r.returncode, ' | '.join(lines[:3])[:300], flush=True)
         res['detected'] = any(c['exit'] == 1 for c in res['checks'].values())
         json.dump(res, open(os.path.join(sd, 'eval.json'), 'w'), indent=1)
+    sh('git -C %s checkout -q -- . && git -C %s clean -fdq' % (WT, WT))
+
+
+def run_harmless():
+    """Edits under which every property still holds: every check must stay green (exit 0)."""
+    if not os.path.isdir(WT):
+        sh('git -C /repo worktree add --detach %s HEAD' % WT)
+    claimed = [c['property_id'] for c in json.load(open(os.path.join(VERIF, 'MANIFEST.json')))['checks']]
+    hd = os.path.join(VERIF, 'seeded', 'harmless')
+    out = {}
+    for patch in sorted(f for f in os.listdir(hd) if f.endswith('.diff')):
+        sh('git -C %s checkout -q -- . && git -C %s clean -fdq' % (WT, WT))
+        r = sh('git -C %s apply %s' % (WT, os.path.join(hd, patch)))
+        if r.returncode:
+            print(patch, 'does not apply', r.stderr)
+            continue
+        out[patch] = {}
+        for p in claimed:
+            env = dict(os.environ, VERIF_REPO=WT, VERIF_BUILD=BUILD)
+            r = subprocess.run(['python3', os.path.join(VERIF, 'tools', 'check.py'), p, '--tier', 'quick'],
+                               capture_output=True, text=True, env=env)
+            lines = [l for l in r.stdout.split('\n') if re.match(r'(VIOLATION|TOOLING|UNDECIDED)', l)]
+            out[patch][p] = {'exit': r.returncode, 'lines': lines[:5]}
+            print('HARMLESS', patch, p, 'exit=%d' % r.returncode, ' | '.join(lines[:2])[:200], flush=True)
+    json.dump(out, open(os.path.join(hd, 'eval.json'), 'w'), indent=1)
     sh('git -C %s checkout -q -- . && git -C %s clean -fdq' % (WT, WT))
 
 
